@@ -511,6 +511,162 @@ def check_map_helpers(ctx: Ctx):
         ctx.decide("R15.5", f, f.node, f"{q}:order", "results come back one per item and in item order, whatever the number of worker processes (metrics do not depend on how the work is distributed)", ok, wit)
 
 
+_LIST_MUT = ("append", "extend", "insert", "remove", "pop", "clear", "sort", "reverse")
+
+
+def _list_like(p) -> bool:
+    ann = norm(p.annotation) if p.annotation is not None else ""
+    return ann.startswith(("list", "List", "typing.List", "Optional[list", "list |")) or "list[" in ann or isinstance(p.default, ast.List)
+
+
+def list_param_writers(prog) -> dict:
+    """{function qual: {parameter name: (site text, site node)}}: list parameters a function modifies in
+    place - by a list method, an augmented assignment, a subscript store - directly, through a local name
+    bound to the parameter itself (not to a copy), or by handing it to a parameter another function of
+    the package modifies.  Flow-sensitive over straight-line code, union at joins; fixpoint over calls."""
+    cache = prog.__dict__.get("_list_param_writers")
+    if cache is not None:
+        return cache
+    funcs = [f for f in prog.package_functions() if f.parent is None]
+    written: dict = {f.qual: {} for f in funcs}
+
+    def analyse(f):
+        found = {}
+        alias0 = {p.name: {p.name} for p in f.call_params if _list_like(p)}
+        if not alias0:
+            return found
+
+        def origins(e, alias):
+            # the parameters `e` may be (the very object of)
+            if isinstance(e, ast.Name):
+                return set(alias.get(e.id, ()))
+            if isinstance(e, ast.IfExp):
+                return origins(e.body, alias) | origins(e.orelse, alias)
+            if isinstance(e, ast.NamedExpr):
+                return origins(e.value, alias)
+            return set()
+
+        def hit(node, e, alias, how):
+            for pn in origins(e, alias):
+                found.setdefault(pn, (f"{f.loc(node)}: {norm(node)[:70]} ({how})", node))
+
+        def scan(node, alias):
+            for c in ast.walk(node):
+                if isinstance(c, ast.Call):
+                    if isinstance(c.func, ast.Attribute) and c.func.attr in _LIST_MUT:
+                        hit(c, c.func.value, alias, "." + c.func.attr + "()")
+                    for g in prog.resolve_call(f, c) if any(origins(a, alias) for a in list(c.args) + [k.value for k in c.keywords]) else []:
+                        if not isinstance(g, Func) or g.qual == f.qual:
+                            continue
+                        gp = g.call_params
+                        for pn, (site, _) in written.get(g.qual, {}).items():
+                            i = next((k for k, q in enumerate(gp) if q.name == pn), None)
+                            actual = None
+                            if i is not None and i < len(c.args) and not any(isinstance(a, ast.Starred) for a in c.args[: i + 1]):
+                                actual = c.args[i]
+                            else:
+                                actual = next((k.value for k in c.keywords if k.arg == pn), None)
+                            if actual is not None:
+                                hit(c, actual, alias, f"handed to {g.qual}({pn}), modified at {site}")
+
+        def block(stmts, alias):
+            for st in stmts:
+                if isinstance(st, (ast.FunctionDef, ast.AsyncFunctionDef, ast.ClassDef)):
+                    continue
+                if isinstance(st, ast.Assign):
+                    scan(st.value, alias)
+                    for t in st.targets:
+                        if isinstance(t, ast.Name):
+                            o = origins(st.value, alias)
+                            if o:
+                                alias[t.id] = o
+                            else:
+                                alias.pop(t.id, None)
+                        elif isinstance(t, ast.Subscript):
+                            hit(st, t.value, alias, "item store")
+                elif isinstance(st, ast.AugAssign):
+                    scan(st.value, alias)
+                    if isinstance(st.target, ast.Name) and isinstance(st.op, (ast.Add, ast.Mult)):
+                        hit(st, st.target, alias, "augmented assignment extends the list in place")
+                    elif isinstance(st.target, ast.Subscript):
+                        hit(st, st.target.value, alias, "item store")
+                elif isinstance(st, ast.Delete):
+                    for t in st.targets:
+                        if isinstance(t, ast.Subscript):
+                            hit(st, t.value, alias, "del item")
+                elif isinstance(st, (ast.If, ast.For, ast.While, ast.With, ast.Try)):
+                    for fld in ("test", "iter"):
+                        if getattr(st, fld, None) is not None:
+                            scan(getattr(st, fld), alias)
+                    if isinstance(st, ast.With):
+                        for it in st.items:
+                            scan(it.context_expr, alias)
+                    branches = [getattr(st, "body", []), getattr(st, "orelse", []), getattr(st, "finalbody", [])] + [h.body for h in getattr(st, "handlers", [])]
+                    outs = []
+                    for b in branches:
+                        a2 = {k: set(v) for k, v in alias.items()}
+                        for _ in range(2 if isinstance(st, (ast.For, ast.While)) else 1):
+                            block(b, a2)
+                        outs.append(a2)
+                    for a2 in outs:
+                        for k, v in a2.items():
+                            alias.setdefault(k, set()).update(v)
+                else:
+                    scan(st, alias)
+
+        block(f.node.body, {k: set(v) for k, v in alias0.items()})
+        return found
+
+    for _ in range(8):
+        changed = False
+        for f in funcs:
+            w = analyse(f)
+            if set(w) != set(written[f.qual]):
+                written[f.qual] = w
+                changed = True
+        if not changed:
+            break
+    prog.__dict__["_list_param_writers"] = written
+    return written
+
+
+def check_state_through_callees(ctx: Ctx):
+    """R15.6 (callees): a method other than the constructor does not hand a list it keeps in an attribute -
+    the evaluator's metric lists, its groups - to a function that modifies that parameter in place (the
+    list is the object's configuration; with default arguments it is shared by every object of the process)."""
+    prog = ctx.prog
+    written = list_param_writers(prog)
+    n_writers = sum(1 for w in written.values() if w)
+    n = 0
+    for f in prog.package_functions():
+        if f.parent is not None or f.cls is None or not f.self_name or f.name == "__init__":
+            continue
+        # local names bound to an attribute of self
+        selfattr = {}
+        for node in walk_no_nested(f.node):
+            if isinstance(node, ast.Assign) and isinstance(node.value, ast.Attribute) and isinstance(node.value.value, ast.Name) and node.value.value.id == f.self_name:
+                for t in node.targets:
+                    if isinstance(t, ast.Name):
+                        selfattr[t.id] = node.value.attr
+        for c in walk_no_nested(f.node):
+            if not isinstance(c, ast.Call):
+                continue
+            acts = [(i, a, None) for i, a in enumerate(c.args)] + [(None, k.value, k.arg) for k in c.keywords if k.arg]
+            state = [(i, a, kw, (a.attr if isinstance(a, ast.Attribute) else selfattr.get(a.id))) for i, a, kw in acts if (isinstance(a, ast.Attribute) and isinstance(a.value, ast.Name) and a.value.id == f.self_name) or (isinstance(a, ast.Name) and a.id in selfattr)]
+            if not state:
+                continue
+            for g in prog.resolve_call(f, c):
+                if not isinstance(g, Func) or not written.get(g.qual):
+                    continue
+                gp = g.call_params
+                for i, a, kw, attr in state:
+                    pn = kw if kw else (gp[i].name if i is not None and i < len(gp) else None)
+                    if pn in written[g.qual]:
+                        n += 1
+                        ctx.violated("R15.6", f, c, f"{f.qual}:{attr}->{g.qual}({pn})", "a list kept in an attribute is not handed to a function that modifies it in place (the evaluator's metric lists and saved configuration do not change through use)", {"attribute": attr, "modified_at": written[g.qual][pn][0]})
+    ctx.ok("R15.6", None, None, "state-through-callees:package", f"no method hands a list attribute to one of the {n_writers} functions that modify a list parameter in place", {"list_writers": sorted(q for q, w in written.items() if w)[:12]}, nontrivial=False)
+
+
 def check_state_writers(ctx: Ctx):
     prog = ctx.prog
     roots = [prog.cls("utils.config:SupportsConfig")]
@@ -750,6 +906,7 @@ def check(ctx: Ctx):
     _run_rule(ctx, "R15.5", check_map_helpers)
     _run_rule(ctx, "check_state_writers", check_state_writers)
     _run_rule(ctx, "check_globals", check_globals)
+    _run_rule(ctx, "check_state_through_callees", check_state_through_callees)
     _run_rule(ctx, "R15.9", check_metric_call_history)
     _guard(ctx, "R15.8", check_param_aliasing)
 
